@@ -491,6 +491,9 @@ def verify_contract(prop, contract, registry=None, options=None, sizes=None, onl
                     a.__dict__["old"] = ctx.old_ns
                     a.__dict__["_pc"] = list(snap.pc)
                     a.__dict__["_ghost"] = dict(snap.ghost)
+                    a.__dict__["_snap"] = snap            # the path's final state (for frame / identity clauses)
+                    a.__dict__["_raw"] = dict(args)       # unwrapped argument values (references)
+                    a.__dict__["_result_raw"] = payload
                     r = wrap(ctx, interp, snap, payload)
                     for ens in contract.ensures:
                         lab, fn = ens[0], ens[1]
